@@ -9,7 +9,6 @@ import os
 import time
 import logging
 import traceback
-import sys
 
 from oslo_config import cfg
 
@@ -77,7 +76,11 @@ class DefaultHandler(BaseHandler):
                 msg_file_name = "%s.msg" % time.time()
             # store the message sequence
             self.msg_sequence[peer_addr] = last_msg_seq + 1
+            terminated = DefaultHandler.ends_with_newline(os.path.join(msg_path, msg_file_name))
             msg_file = open(os.path.join(msg_path, msg_file_name), 'a')
+            if not terminated:
+                # do not glue the next record to a line that was cut short
+                msg_file.write('\n')
             msg_file.flush()
             self.peer_files[peer_addr] = (msg_path, msg_file)
             LOG.info('BGP message file %s', msg_file_name)
@@ -96,25 +99,44 @@ class DefaultHandler(BaseHandler):
             return last_seq, None
         file_list.sort()
         msg_file_name = file_list[-1]
-        try:
-            with open(msg_path + msg_file_name, 'r') as fh:
-                line = None
-                for line in fh:
-                    pass
-                last = line
-                if line:
-                    if last.startswith('['):
-                        last_seq = eval(last)[1]
-                    elif last.startswith('{'):
-                        last_seq = json.loads(last)['seq']
-        except OSError:
-            LOG.error('Error when reading bgp message files')
-        except Exception as e:
-            LOG.debug(traceback.format_exc())
-            LOG.error(e)
-            sys.exit()
+        # the newest file can be empty (the agent stopped right after a rotation) and its
+        # last line can be cut short (the agent was killed while writing it): take the last
+        # complete record, going back through older files if necessary
+        for file_name in reversed(file_list):
+            found = False
+            try:
+                with open(msg_path + file_name, 'r') as fh:
+                    for line in fh:
+                        try:
+                            if line.startswith('['):
+                                last_seq = eval(line)[1]
+                                found = True
+                            elif line.startswith('{'):
+                                last_seq = json.loads(line)['seq']
+                                found = True
+                        except Exception as e:
+                            LOG.debug(traceback.format_exc())
+                            LOG.error('skip incomplete bgp message record: %s', e)
+            except OSError:
+                LOG.error('Error when reading bgp message files')
+            if found:
+                break
 
         return last_seq, msg_file_name
+
+    @staticmethod
+    def ends_with_newline(file_path):
+        """
+        Tell whether the file is empty or its last line is terminated.
+        """
+        line = None
+        try:
+            with open(file_path, 'r') as fh:
+                for line in fh:
+                    pass
+        except OSError:
+            return True
+        return line is None or line.endswith('\n')
 
     def write_msg(self, peer, timestamp, msg_type, msg):
         """
